@@ -49,6 +49,10 @@ add("C16","E5 codec + E1 enum","exploration",
     "Byte/hex/array/word/serde/format routes of Uint<1,2,3,4,6,7,8,16,32>, Int, Limb, BoxedUint, NonZero, Odd, Wrapping, Checked: encoders compared with the positional formula, decoders must invert them; byte-position probes; hex decoders driven with ALL 256 byte values at each of the 32 positions of a U128 string and ALL 65536 two-character prefixes of a U64 string (invalid characters must be rejected, never decoded) and all lengths; BoxedUint::from_be/le_slice for EVERY precision 0..=520 x EVERY length 0..=precision/8+9 x content patterns incl. exactly 2^precision and 2^precision-1 (InputSize / Precision exactly as documented); primitives, concat/split/resize/widen/shorten.",
     ASSUME + " Byte values per hex position and (precision, length) pairs are exhaustive.", "grammar/byte-exhaustive exploration of the real decoders against independent reference recognisers + shape-exhaustive round trips", "DESIGN.md §3.C16")
 
+add("C17","E5 codec + E1 enum","exploration",
+    "EVERY radix 2..=36: all strings of length <= 4/5 over a 10-symbol alphabet (digits, max digit, first invalid digit, '_', '+', letters, space, non-ASCII) parsed into U64, U128, unbounded and precision-limited BoxedUint and compared with an independent grammar (value, Empty / InvalidDigit / InputSize / Precision exactly, never a wrapped value, never a panic); formatting of 0, 1, radix^j, radix^j+-1 for every j, 2^BITS-1 and patterns for Uint<1,2,3,4,8,16,40> and BoxedUint up to 140 limbs vs BigUint::to_str_radix, parsed back with '+', leading zeros, upper case and an underscore at every interior position; overflow and precision boundary numerals.",
+    ASSUME + " Radices are exhaustive; short strings over the stated alphabet are exhaustive.", "grammar-exhaustive exploration of the real parsers/formatters against an independent reference grammar and BigUint", "DESIGN.md §3.C17")
+
 NOT_YET = {}
 ALL = [f"C{i:02d}" for i in range(1,21)]
 import os, sys
